@@ -201,6 +201,24 @@ def _flatten_stmts(func, stmts, depth, stack, keep=()):
                 if rep_ is not None:
                     out += rep_
                     continue
+        if isinstance(st, ast.Assign) and len(st.targets) == 1 and \
+                isinstance(st.value, ast.Call) and depth < 3 and \
+                isinstance(st.targets[0], (ast.Subscript, ast.Attribute)):
+            # `table[key] = self._helper(args)`: the helper's result goes
+            # through a temporary, which is then stored
+            h = _helper_of(func, st.value)
+            if h is not None and h.fq not in stack and h.name not in keep:
+                tmp = ast.Name(id=h.name + '$value', ctx=ast.Store())
+                rep_ = _inline_body(func, h, st.value, tmp, depth, stack,
+                                    keep)
+                if rep_ is not None:
+                    asg = ast.Assign(
+                        targets=[st.targets[0]],
+                        value=ast.Name(id=h.name + '$value', ctx=ast.Load()))
+                    ast.copy_location(asg, st)
+                    ast.fix_missing_locations(asg)
+                    out += rep_ + [asg]
+                    continue
         if call is not None and depth < 3:
             h = _helper_of(func, call)
             if h is not None and h.fq not in stack and h.name not in keep:
@@ -318,14 +336,17 @@ def flatten(func, keep=()):
     """FunctionDef copy of func.node with private helper calls inlined
     (helpers named in `keep` stay calls)"""
     key = (id(func.node), tuple(sorted(keep)))
-    if key not in _CACHE:
+    hit = _CACHE.get(key)
+    if hit is None or hit[0] is not func.node:
+        # (the entry keeps func.node alive, so its id cannot be reused by
+        # the tree of another Repo while the entry exists)
         node = copy.deepcopy(func.node)
         node.body = _flatten_stmts(func, node.body, 0, [func.fq], keep)
         inl = _ExprInliner(func, keep)
         node.body = [inl.visit(st) for st in node.body]
         ast.fix_missing_locations(node)
-        _CACHE[key] = node
-    return _CACHE[key]
+        _CACHE[key] = hit = (func.node, node)
+    return hit[1]
 
 
 class Flat:
